@@ -150,8 +150,15 @@ def _history(rng, n, npt, m_ub, m_eq, length, max_cond=1e6):
                     models.update_interpolation(k, xnew, float(vals[0]), np.array(vals[1:1 + m_ub], float), np.array(vals[1 + m_ub:], float))
                 except Exception as exc:  # noqa
                     raise ImplCrash(f"update_interpolation raised {type(exc).__name__}: {exc}")
-            if xpt_rows(models) != Xn:
-                return None     # geometry not exact in binary64: drop the history
+            got_rows = xpt_rows(models)
+            if got_rows != Xn:
+                # not exactly the expected set: either binary64 could not represent the offsets (drop the history) or the
+                # implementation stored the new point somewhere else (a failure of the operation itself)
+                worst = max(abs(float(a - b)) for ra, rb in zip(got_rows, Xn) for a, b in zip(ra, rb))
+                scale_ = max(1.0, max(abs(float(v)) for r_ in Xn for v in r_))
+                if worst > 1e-9 * scale_:
+                    raise ImplCrash(f"after update_interpolation({k}, ...) the interpolation points are not the old ones with point {k} replaced (largest difference {worst!r})")
+                return None
             parts += [f"U {k}", exact.rl(frs(xnew)), exact.rl(frs(vals)), " ".join(exact.rl(r) for r in Wn)]
             obs.append(("U", float_state(models, []), c, {"k": k, "xnew": xnew.tolist()}))
             kinds["U"] += 1
